@@ -262,6 +262,8 @@ def gen_ops(rng, cap, n, widen, thorough):
             n_samples += 1
         if rng.chance(0.15):
             ops.append(["size"])
+        if rng.chance(0.04):
+            ops.append(["pickle"])
         if rng.chance(p_reset):
             ops.append(["reset"])
             since = 0
@@ -678,6 +680,13 @@ def run_case(ctx, case, viol):
             events.append(ev)
             if ev["size"] != 0:
                 seen({"kind": "size"}, "size() != 0 after reset()", {"op_index": oi, "size": ev["size"]})
+        elif kind == "pickle":
+            # `save_replay_buffer` / `load_replay_buffer` (a pickle round trip) in the middle of a history: the reloaded
+            # buffer continues exactly where the saved one was (no model operation: the model's state is unchanged)
+            import pickle
+
+            buf = pickle.loads(pickle.dumps(buf))
+            ctx.report.count("op:pickle_round_trip")
         elif kind == "size":
             s = int(buf.size())
             mops.append({"op": "size"})
